@@ -265,7 +265,10 @@ class C11Id(PropBase):
 
 class C11(C11Id):
     def parts(self):
-        return [C11Id(), ZWorld(), ZHot(), ZCb(), ZThr(), RuleEq()]
+        # "a rule whose parameters changed takes effect on the very next entry": after every manager operation the
+        # enforced rules are the prescribed ones, which is the C10 predicate on the C10 cases
+        from props.c10 import C10
+        return [C11Id(), ZWorld(), ZHot(), ZCb(), ZThr(), RuleEq(), C10()]
 
 
 class RuleEq(PropBase):
